@@ -11,7 +11,7 @@ package main
 //   one clock (posedge clk), synchronous active-high reset.
 //
 // Agent automaton (one per port group; every agent chooses independently each cycle, all combinations are explored):
-//   Idle  (req=0)        : stay idle | raise the request (sender: with any value of the domain) - only when its Ack is 0
+//   Idle  (req=0)        : stay idle | raise the request (sender: with any value of the domain), whatever Ack shows
 //   Req   (req=1, ack=0) : must hold request (and data) unchanged
 //   Acked (req=1, ack=1) : hold | drop the request (sender data is held unchanged while req=1, 0 while idle)
 // The phase of an agent is a function of (its request input, its Ack output) of the current state.
@@ -457,8 +457,13 @@ func (m *model) step(sim *vsim.Sim, g *ghost, letters string) (ng *ghost, class,
 		} else {
 			post = sim.Get(m.rAck[a-ns])
 		}
-		rose := preAck[a] == 0 && post == 1
+		// an acknowledged operation, as the agent sees it: the first clock at which its request and its Ack are
+		// both high (normally the clock at which Ack rises; with an Ack left over from the previous operation it is
+		// the clock of the new request itself)
+		rose := (preAck[a] == 0 && post == 1) || (req[a] && post == 1 && g.ph[a] == phIdle)
 		switch {
+		case !req[a] && g.ph[a] == phIdle && preAck[a] == 1 && post == 1:
+			return nil, "ack-not-released", m.agentName(a) + "Ack is still high a full clock after the agent dropped its request"
 		case rose && !req[a]:
 			return nil, "ack-without-request", m.agentName(a) + "Ack rose although the agent was not requesting"
 		case rose && a < ns:
@@ -623,14 +628,17 @@ func (m *model) succ(ex *xs.Explorer[string], id int, s string) []xs.Edge[string
 				o = append(o, byte('w'+i))
 			}
 		}
-		if ack == 0 {
-			if a < ns {
-				for i := range m.domain {
-					o = append(o, byte('0'+i))
-				}
-			} else {
-				o = append(o, 'r')
+		// an idle agent may raise its request whatever its Ack line shows: the opcodes that drive these ports (r2q,
+		// q2r, r2t, t2r, ...) never wait for Ack to fall before the next request. (In the generated module Ack falls
+		// at the very edge that samples the dropped request, so an idle agent never sees Ack high — unless the
+		// release is broken, which is exactly what must not be masked.)
+		_ = ack
+		if a < ns {
+			for i := range m.domain {
+				o = append(o, byte('0'+i))
 			}
+		} else {
+			o = append(o, 'r')
 		}
 		opts[a] = o
 	}
